@@ -24,6 +24,8 @@ pub enum OpKind {
     Sub(u8),
     Unsub(u8),
     Ping,
+    /// the user's DISCONNECT (created by `Terminate(UserDisconnect)`, never by `Start`)
+    Disconnect,
 }
 
 #[derive(Clone, Copy, Debug, PartialEq, Eq, Serialize, Deserialize)]
@@ -339,6 +341,7 @@ impl<'a> Sim<'a> {
             OpKind::Sub(n) => OpSpec::Subscribe(tagged_subscribe(i, (n % 4) as usize + 1)),
             OpKind::Unsub(n) => OpSpec::Unsubscribe(tagged_unsubscribe(i, (n % 4) as usize + 1)),
             OpKind::Ping => OpSpec::Ping,
+            OpKind::Disconnect => OpSpec::Disconnect(DisconnectSpec::default()),
         }
     }
 
@@ -582,7 +585,7 @@ impl<'a> Sim<'a> {
                         pings_on_wire.push(i)
                     }
                 }
-                OpKind::Pub0 => {}
+                OpKind::Pub0 | OpKind::Disconnect => {}
             }
         }
         // a conformant broker answers pings in order: only the oldest unanswered one
@@ -1166,7 +1169,7 @@ impl<'a> Sim<'a> {
                     let i = self.w.ops.len();
                     self.w.start_op(h, OpSpec::Disconnect(spec));
                     self.mops.push(MOp {
-                        kind: OpKind::Ping, // placeholder kind; judged separately
+                        kind: OpKind::Disconnect,
                         acks: vec![],
                         expected: Some(OpRes::Ok),
                         final_step: Some(self.w.step),
@@ -1539,17 +1542,18 @@ impl<'a> Sim<'a> {
             let g = got.get(k);
             let x = want.get(k);
             if g != x {
-                let what = match (g, x) {
-                    (None, Some((4, _))) => "missing-puback",
-                    (None, Some((5, _))) => "missing-pubrec",
-                    (None, Some((7, _))) => "missing-pubcomp",
-                    (Some(_), None) => "extra-acknowledgement",
-                    (Some((t, _)), Some((u, _))) if t != u => {
-                        // a missing ack shows up as a type mismatch further on
-                        if got.len() < want.len() { "missing-acknowledgement" } else { "wrong-type" }
+                let what = if got.len() < want.len() {
+                    match x.map(|a| a.0) {
+                        Some(4) => "missing-puback",
+                        Some(5) => "missing-pubrec",
+                        _ => "missing-pubcomp",
                     }
-                    _ => {
-                        if got.len() < want.len() { "missing-acknowledgement" } else { "wrong-identifier" }
+                } else if got.len() > want.len() {
+                    "extra-acknowledgement"
+                } else {
+                    match (g, x) {
+                        (Some((t, _)), Some((u, _))) if t != u => "wrong-type",
+                        _ => "wrong-identifier",
                     }
                 };
                 self.fail(
@@ -1651,6 +1655,7 @@ pub fn kind_name(k: OpKind) -> &'static str {
         OpKind::Sub(_) => "sub",
         OpKind::Unsub(_) => "unsub",
         OpKind::Ping => "ping",
+        OpKind::Disconnect => "disconnect",
     }
 }
 
